@@ -131,12 +131,10 @@ def finish_case(levels, ops, z, traced, thresholds, dflt=0, prematch=True):
     for lv in levels:
         s = lv["src"]
         if s["kind"] == "proj":
-            direct = not lv["pop"]
-            if direct or prematch:
-                matches.append([s["srcRank"], lv["rank"]])
-                s["own"] = False
-            else:
-                s["own"] = True
+            # project_iterator calls matchRanks itself; whether or not the kernel also declares the match
+            # before the nest (prematch), it takes effect before the first use of the source rank
+            matches.append([s["srcRank"], lv["rank"]])
+            s["own"] = False
     return {"prop": PROP, "op": "kernel", "dflt": dflt, "levels": levels, "ops": ops, "z": z,
             "traced": traced, "matches": matches, "prematch": bool(prematch), "thresholds": thresholds}
 
@@ -363,6 +361,8 @@ def gen_api(seed, tier):
                 evs.append(["end", r])
 
         loop(0)
+        if rng.random() < 0.2:       # a match declared after some rank has been registered (takes effect at once)
+            evs.insert(rng.randrange(len(evs) + 1), ["match", "Q", rng.choice(ranks)])
         u = rng.random()
         if u < 0.08 and keys:        # late (re)declaration
             k = rng.choice(keys)
@@ -555,8 +555,9 @@ def _run_kernel_once(ft, case, ncu, consumable):
         M.setNumCachedUses(ncu)
         for r, t in case["traced"]:
             M.trace(r, t, consumable=consumable)
-        for a, b in case["matches"]:
-            M.matchRanks(a, b)
+        if case.get("prematch", True):
+            for a, b in case["matches"]:
+                M.matchRanks(a, b)
         with _DestSpy(ft) as spy:
             _exec_nest(ft, levels, ops, z, 0, spy)
         dest = (spy.checked, spy.bad[:2])
